@@ -225,14 +225,15 @@ example : ∃ c, (run c).failed = false ∧ (run c).out 0 = Val.int 0 ∧ (run c
 
 namespace TrTie
 
-/-- the model's `quietNone` IS the translated `InitAsync.init_regular` (guard and action list taken from the
-    current source by tools/py2lean_init.py): a changed guard -- e.g. the truth value of the initdef instead
+/-- the model's `quietNone` IS the translated `InitAsync.init_regular` applied to the block's output and initdef
+    (guard, the `Block.is_initialized` it calls, and the action list are taken from the current source by
+    tools/py2lean_init.py; names are resolved through the MRO / module globals, not by spelling): a changed guard -- e.g. the truth value of the initdef instead
     of `is not UNDEF` -- changes the generated definition and this theorem stops compiling -/
 theorem translated_initasync_regular_is_model (c : Cfg) (rec : Call → St → St) (b : Nat) (a : St)
     (hq : (c.blk b).regular = .quietNone)
     (hv : ∀ v h, (c.blk b).initdef = some (v, h) → v.isUndef = false) :
     regularBody c rec b a =
-      applyActs rec b (Edzed.Gen.TrInit.initAsyncRegular (!(a.out b).isUndef) (initdefVal (c.blk b))) false a :=
+      applyActs rec b (Edzed.Gen.TrInit.initAsyncRegular (a.out b) (initdefVal (c.blk b))) false a :=
   regularBody_tie c rec b a hq hv
 
 end TrTie
